@@ -14,7 +14,7 @@ import threading
 from evh.common import Check, Model
 
 NAMES = ["a", "b c", "ü", "d.txt", "sub", "x y", "é€", "l1", "l2", "deep", "z", "m.bin"]
-FMODES = [0o400, 0o444, 0o600, 0o644, 0o640, 0o755, 0o700, 0o777, 0o500, 0o604]
+FMODES = [0o400, 0o444, 0o600, 0o644, 0o640, 0o755, 0o700, 0o777, 0o500, 0o604] + ([0o000, 0o000, 0o200, 0o004] if os.geteuid() == 0 else [])   # all permissions withdrawn: root still reads the source
 DMODES = [0o755, 0o700, 0o500, 0o555, 0o750, 0o711]
 MTIMES = [1000000000.0, 1234567890.5, 1234567890.25, 1600000000.123456, 1600000000.623456, 1500000000.000001, 946684800.0, 1700000001.75]   # incl. pairs within one second
 # absolute link texts that do NOT lead into the source tree; {SRC} = the source directory: siblings that share its name as a prefix, and
